@@ -68,6 +68,13 @@ def look (tbl : List (Bytes × Bytes)) (x : Bytes) : Out Bytes :=
   | some o => .ok o
   | none => .oof
 
+/-- forward cipher with an already expanded key (so that the bulk CBC of Algorithm 2.B expands once) -/
+def encWith (rk : Array UInt32) (nr : Nat) (b : Bytes) : Out Bytes :=
+  if b.length = 16 then .ok (Prim.aesEncWords rk nr b.toArray).toList else .oof
+
+def nativeEnc (k : Bytes) : Bytes → Out Bytes :=
+  if k.length = 16 ∨ k.length = 32 then encWith (Prim.keyWords (Prim.aesExpand k.toArray)) (k.length / 4 + 6) else fun _ => .oof
+
 def ofOpt : Option Bytes → Out Bytes
   | some o => .ok o
   | none => .oof
@@ -80,9 +87,9 @@ def prims (t : Tables) (mode : Nat) : Prims :=
     sha256 := fun x => if native then .ok (Prim.sha256 x) else look t.s2 x
     sha384 := fun x => if native then .ok (Prim.sha384 x) else look t.s3 x
     sha512 := fun x => if native then .ok (Prim.sha512 x) else look t.s5 x
-    aesEnc := fun k b =>
-      if native then ofOpt (Prim.aesEnc k b)
-      else match t.aes.find? (fun (k', i, _) => k' == k && i == b) with
+    aesEnc := fun k =>
+      if native then nativeEnc k
+      else fun b => match t.aes.find? (fun (k', i, _) => k' == k && i == b) with
         | some (_, _, o) => .ok o
         | none => .oof
     aesDec := fun k b =>
